@@ -62,7 +62,7 @@ def signature(case, obs):
     for e in tr:
         if e[0] == "main" and e[1] == "clock_pause":
             acked = True
-        elif e[0] == "main" and e[1] == "clock_resume":
+        elif e[0] == "main" and (e[1] == "clock_resume" or (e[1] == "set" and e[2] == "resume")):
             acked = False
         elif acked and e[0].startswith("bg") and e[1] in ("cb_b", "cb_e", "cb_raise", "sleep"):
             return "callback-while-acknowledged:" + (e[2].split(".")[1] if len(e) > 2 else e[1])
@@ -76,4 +76,4 @@ LEVEL_TEXT = ("Machine-checked invariant of the thread model M6: in every reacha
               "and passes the same monitor.")
 LEVEL_NOTE = "Trusted: Coq kernel + vm_compute; the acceptor Model/Threads.v; the sim primitives and import-time substitution; yield points only at sync operations, callback boundaries and sleeps. Theorems are about the model."
 DESIGN_REF = "DESIGN.md §4 C01"
-CLAIMED = False
+
